@@ -615,3 +615,26 @@ package gtab
 //@     invariant p <= i && i <= a && 0 <= p && ref(seq) == ref(ctx.seq) && off(seq) == off(ctx.seq) && len(seq) == len(ctx.seq) && len(ctx.seq) == old(len(ctx.seq))
 //@     invariant dx == int16(baseRecord.X - markRecord.X - advsum(seq, p, i))
 //@     decreases a - i
+
+// Mark-to-mark attachment (GPOS lookup type 6): as type 4 with the second mark
+// in the role of the base; the first mark's placement offsets are SET (not
+// adjusted) from the two anchors and the advances in between.
+//@ func (l *Gpos6_1) apply(ctx *Context, a int, b int) (next int)   props: C06 C07
+//@   requires l != nil && ctx != nil && 0 <= a && a < b && b <= len(ctx.seq) && stackinv(ctx) && keepOK(ctx) && llOK(ctx)
+//@   requires forall g uint16 :: has(l.Mark1Cov, g) ==> 0 <= l.Mark1Cov[g] && l.Mark1Cov[g] < len(l.Mark1Array)
+//@   requires forall g uint16 :: has(l.Mark2Cov, g) ==> 0 <= l.Mark2Cov[g] && l.Mark2Cov[g] < len(l.Mark2Array)
+//@   requires forall i int :: 0 <= i && i < len(l.Mark2Array) ==> forall k int :: 0 <= k && k < len(l.Mark1Array) ==> l.Mark1Array[k].Class < len(l.Mark2Array[i])
+//@   ensures (next == -1 || next == a + 1) && stackinv(ctx) && len(ctx.seq) == old(len(ctx.seq)) && len(ctx.stack) == old(len(ctx.stack))
+//@   ensures !has(l.Mark1Cov, old(ctx.seq[a].GID)) ==> next == -1
+//@   ensures forall i int :: 0 <= i && i < len(ctx.seq) ==> ctx.seq[i].GID == old(ctx.seq[i].GID) && ctx.seq[i].Advance == old(ctx.seq[i].Advance)
+//@   ensures forall i int :: 0 <= i && i < len(ctx.seq) && (i != a || next == -1) ==> ctx.seq[i].XOffset == old(ctx.seq[i].XOffset) && ctx.seq[i].YOffset == old(ctx.seq[i].YOffset)
+//@   return_assert next >= 0 ==> 0 <= p && p < a && has(l.Mark2Cov, seq[p].GID) && forall q int :: p < q && q < a ==> !has(l.Mark2Cov, seq[q].GID)
+//@   return_assert next >= 0 ==> seq[a].YOffset == int16(mark2Record.Y - mark1Record.Y)
+//@   modifies ctx.seq[*]
+//@   loop 0
+//@     invariant -1 <= p && p < a && ref(seq) == ref(ctx.seq) && off(seq) == off(ctx.seq) && len(seq) == len(ctx.seq) && len(ctx.seq) == old(len(ctx.seq))
+//@     invariant forall q int :: p < q && q < a ==> !has(l.Mark2Cov, seq[q].GID)
+//@     decreases p + 1
+//@   loop 1
+//@     invariant p <= i && i <= a && 0 <= p && ref(seq) == ref(ctx.seq) && off(seq) == off(ctx.seq) && len(seq) == len(ctx.seq) && len(ctx.seq) == old(len(ctx.seq))
+//@     decreases a - i
